@@ -345,17 +345,15 @@ func (g *G) BadAttestation(label string, message []byte) ([]byte, string) {
 	}
 	switch k := g.Int(label+"/class", 0, 12); {
 	case k == 11 && good != nil && t >= 1:
-		// a recovery byte outside {0,1,27,28} that has the right parity: v+2j or v+27+2j (30, 35, 253, ...)
+		// a recovery byte outside {0,1,27,28}: the true recovery id plus an offset (a lenient or repeated
+		// normalisation - subtract 27 while >= 27, look at the parity only - would arrive at the right id)
 		b := append([]byte{}, good...)
 		i := g.Int(label+"/vslot", 0, t-1)*65 + 64
-		par := b[i]
-		if par >= 27 {
-			par -= 27
+		rec := b[i]
+		if rec >= 27 {
+			rec -= 27
 		}
-		b[i] = Pick(g, label+"/vodd", []byte{2, 4, 26, 29, 31, 35, 37, 55, 128, 254})
-		if b[i]%2 != (par+b[i]/27)%2 { // keep "the parity a lenient normalisation would arrive at"
-			b[i]++
-		}
+		b[i] = rec + Pick(g, label+"/voff", []byte{54, 54, 29, 30, 2, 26, 35, 81, 128, 254})
 		return b, "odd-recovery-byte"
 	case k == 12 && good != nil && t >= 1 && len(ks) >= t:
 		// the quorum signs a value derived from the message that is not its Keccak-256 digest
